@@ -330,7 +330,7 @@ func main() {
 		fmt.Fprintln(os.Stderr, err)
 		os.Exit(2)
 	}
-	var create, closeFn *ast.FuncDecl
+	var create, closeFn, reloadFn *ast.FuncDecl
 	for _, d := range f.Decls {
 		if fd, ok := d.(*ast.FuncDecl); ok {
 			switch fd.Name.Name {
@@ -338,12 +338,78 @@ func main() {
 				create = fd
 			case "closeResources":
 				closeFn = fd
+			case "reloadConf":
+				reloadFn = fd
 			}
 		}
 	}
 	if create == nil || closeFn == nil {
 		fmt.Fprintln(os.Stderr, "createResources/closeResources not found")
 		os.Exit(2)
+	}
+
+	// --- reloadConf: closeResources(newConf); p.conf.Store(newConf); createResources(...) in this order, and both passes
+	// read `currentConf := p.conf.Load()` first: the close predicates compare the new configuration with the one the
+	// components were built from, the construction blocks read the new one
+	if reloadFn == nil {
+		failf("reloadConf not found")
+	} else {
+		pos := map[string]int{}
+		k := 0
+		ast.Inspect(reloadFn.Body, func(x ast.Node) bool {
+			call, ok := x.(*ast.CallExpr)
+			if !ok {
+				return true
+			}
+			sel, ok := call.Fun.(*ast.SelectorExpr)
+			if !ok {
+				return true
+			}
+			name := ""
+			switch inner := sel.X.(type) {
+			case *ast.Ident:
+				if inner.Name == "p" {
+					name = sel.Sel.Name
+				}
+			case *ast.SelectorExpr:
+				if r, ok := inner.X.(*ast.Ident); ok && r.Name == "p" {
+					name = inner.Sel.Name + "." + sel.Sel.Name
+				}
+			}
+			if name == "closeResources" || name == "createResources" || name == "conf.Store" {
+				if len(call.Args) == 1 {
+					if a, ok := call.Args[0].(*ast.Ident); ok && (name == "createResources" || a.Name == "newConf") {
+						k++
+						if _, seen := pos[name]; !seen {
+							pos[name] = k
+						}
+					}
+				}
+			}
+			return true
+		})
+		if !(pos["closeResources"] == 1 && pos["conf.Store"] == 2 && pos["createResources"] == 3) {
+			failf("reloadConf: expected closeResources(newConf); p.conf.Store(newConf); createResources(..) in this order, found %v", pos)
+		}
+	}
+	for _, fd := range []*ast.FuncDecl{create, closeFn} {
+		ok := false
+		if len(fd.Body.List) > 0 {
+			if as, isAs := fd.Body.List[0].(*ast.AssignStmt); isAs && len(as.Lhs) == 1 && len(as.Rhs) == 1 {
+				id, _ := as.Lhs[0].(*ast.Ident)
+				call, _ := as.Rhs[0].(*ast.CallExpr)
+				if id != nil && id.Name == "currentConf" && call != nil {
+					if sel, isSel := call.Fun.(*ast.SelectorExpr); isSel && sel.Sel.Name == "Load" {
+						if inner, isIn := sel.X.(*ast.SelectorExpr); isIn && inner.Sel.Name == "conf" {
+							ok = true
+						}
+					}
+				}
+			}
+		}
+		if !ok {
+			failf("%s does not start with currentConf := p.conf.Load()", fd.Name.Name)
+		}
 	}
 
 	// --- createResources: one construction block per component
